@@ -41,6 +41,7 @@ type caseIn struct {
 	rd     *rDef
 	w      *wallet
 	stream string
+	tree   bool // case of the requirement-tree batch
 }
 
 type caseOut struct {
@@ -123,7 +124,7 @@ func TestCheck(t *testing.T) {
 
 	silenceAuditLog(t)
 	pairs := r.Pick(900, 10000)
-	cases, genStats := generate(r, pairs, r.Pick(160, 1600), r.Pick(300, 3000))
+	cases, genStats := generate(r, pairs, r.Pick(160, 1600), r.Pick(200, 2400))
 	for k, v := range genStats {
 		r.Count(k, v)
 	}
@@ -280,6 +281,7 @@ func generateBatch(r *ev.Run, g *gen, pairs int, into *[]*caseIn, stats map[stri
 		}
 		nW := 1 + g.weighted(5, 4, 1)
 		if g.nest {
+			g.ref = rd
 			nW = 2 + g.weighted(3, 4, 2) // several wallets per tree: more / exactly / fewer satisfiable nested requirements than asked for
 			for _, q := range rd.Reqs {
 				if len(q.Nested) > 0 {
@@ -288,7 +290,7 @@ func generateBatch(r *ev.Run, g *gen, pairs int, into *[]*caseIn, stats map[stri
 			}
 		}
 		for k := 0; k < nW && len(cases) < pairs; k++ {
-			cases = append(cases, &caseIn{idx: len(cases), ds: ds, raw: raw, pd: pd, rd: rd, w: g.wallet(ds), stream: fmt.Sprintf("case-%d", len(cases))})
+			cases = append(cases, &caseIn{idx: len(cases), ds: ds, raw: raw, pd: pd, rd: rd, w: g.wallet(ds), stream: fmt.Sprintf("case-%d", len(cases)), tree: g.nest})
 		}
 	}
 }
@@ -425,7 +427,7 @@ func evaluate(r *ev.Run, in *caseIn) (out *caseOut) {
 				out.count("credentials_meant_to_match_satisfying", 1)
 			} else if in.ds.tree["submission_requirements"] != nil && strings.HasPrefix(w.class, "groups:") {
 				x := rd.desc(id)
-				out.dist("dbg_fail", failClass(rd, x, c))
+				out.count("dbg_fail/"+failClass(rd, x, c), 1)
 			}
 		}
 	}
@@ -441,6 +443,9 @@ func evaluate(r *ev.Run, in *caseIn) (out *caseOut) {
 		return
 	}
 
+	if strings.HasPrefix(w.class, "groups:") {
+		out.count("dbg_ms_nested_probes", int(time.Since(t0).Milliseconds()))
+	}
 	// --- wallet side: Match
 	var vcs []vc.VerifiableCredential
 	var maps []pe.InputDescriptorMappingObject
@@ -610,6 +615,9 @@ func evaluate(r *ev.Run, in *caseIn) (out *caseOut) {
 		realPresenter(out, in, walletVCs, found, decidedExists && !exists, selection, byRaw, contradictory)
 	}
 
+	if strings.HasPrefix(w.class, "groups:") {
+		out.count("dbg_ms_nested_presenter", int(time.Since(t0).Milliseconds()))
+	}
 	// --- wallet side: Build (optionally with a leading wallet that holds nothing useful)
 	holder := did.MustParseDID(holderDID)
 	other := did.MustParseDID("did:web:other-holder.example")
@@ -774,13 +782,20 @@ func evaluate(r *ev.Run, in *caseIn) (out *caseOut) {
 		return
 	}
 
+	if strings.HasPrefix(w.class, "groups:") {
+		out.count("dbg_ms_nested_envs", int(time.Since(t0).Milliseconds()))
+	}
 	// --- verifier state used by the token endpoints
 	pexConsumer(out, in, accepted, acceptedEnv, sub, expectedByEnv, selection, byRaw, selPairs, byKey, caseUnspec == "")
 
 	// --- unforgeability: mutated submissions against one envelope shape (rotating)
-	if len(selPairs) > 0 {
+	// (requirement-tree batch: every third case; its selections are large and the mutators are not what that batch is about)
+	if len(selPairs) > 0 && (!in.tree || in.idx%3 == 0) {
 		k := in.idx % len(accepted)
 		mutate(out, in, rnd, accepted[k], selPairs, selection, byRaw, byKey)
+		if strings.HasPrefix(w.class, "groups:") {
+			out.count("dbg_ms_nested_mutate", int(time.Since(t0).Milliseconds()))
+		}
 		// --- verifier soundness on envelopes with id-colliding credentials (twin_test.go)
 		twins(out, in, rnd, selPairs, byKey)
 		if out.fatal != "" {
